@@ -503,6 +503,10 @@ def run_check(specs, engines, prop, tier, seed, keep=False, only_jobs=None):
     jobs = spec['jobs'](tier, seed)
     if only_jobs:
         jobs = only_jobs
+    if tier == 'thorough':
+        # bounds are case counts; the per-job wall-clock limit is only a safety net (a job that hits it is inconclusive)
+        for j in jobs:
+            j.timeout = max(j.timeout, 6 * 3600)
     rundir = os.path.join(BUILD, 'run', '%s-%s-%d' % (prop, tier, os.getpid()))
     shutil.rmtree(rundir, ignore_errors=True)
     os.makedirs(rundir)
